@@ -33,12 +33,13 @@ const (
 	C07SharedUses   // collision family: the clashing children of two or three augments come from uses of ONE grouping
 	C07MultiRev     // a module (or a submodule) loaded in two or three revisions; the older revisions carry augments of their own
 	C07DevGone      // an augment that collides or has a faulty body, and a deviate not-supported that removes its target afterwards
+	C07PrefixClash  // a module and its submodules bind one prefix to different modules and augment the same path string
 	C07NumShapes    // number of shapes
 )
 
 // C07ShapeNames names the shapes (Distribution keys).
 var C07ShapeNames = [...]string{"mixed", "chain-worst", "chain-random", "uses-target", "choice-case", "rpc-notif", "collision",
-	"non-container", "missing", "body-error", "submodule", "body-variety", "implicit-case(outside-claim)", "sub-noprefix", "action-no-io", "childless-grouping-node", "collision-shared-grouping", "multi-revision", "error-then-not-supported"}
+	"non-container", "missing", "body-error", "submodule", "body-variety", "implicit-case(outside-claim)", "sub-noprefix", "action-no-io", "childless-grouping-node", "collision-shared-grouping", "multi-revision", "error-then-not-supported", "per-file-prefix"}
 
 // Expectations for one augment statement.
 const (
@@ -90,6 +91,9 @@ type C07Aug struct {
 	// DevRemoved: a deviation with deviate not-supported removes the target (or an ancestor of it)
 	// after the augment stage; what went wrong while merging must be reported all the same.
 	DevRemoved bool `json:"devremoved,omitempty"`
+	// PrefixClash: the statement's path string is also written in another file of the same module
+	// (owner or sibling submodule) where the same prefix is bound to a different module.
+	PrefixClash bool `json:"prefixclash,omitempty"`
 }
 
 // C07Set is a generated set plus knowledge.
@@ -154,7 +158,13 @@ type c07g struct {
 	revGroups [][]*Module                    // revisions of one name, oldest first
 	pins      map[*Module]map[*Module]string // importer/includer -> imported revision -> pinned date
 	devs      []c07dev
+	// per-file prefix bindings: files of one module (owner, submodules) that bind the prefix "t" to
+	// modules with identically named top-level nodes
+	wantClash bool
+	clash     []c07bind
 }
+
+type c07bind struct{ file, target *Module }
 
 // c07dev is one deviation with deviate not-supported.
 type c07dev struct {
@@ -207,6 +217,7 @@ func GenerateC07(r *rand.Rand, shape int) *C07Set {
 	g := &c07g{r: r, set: &Set{}, byNS: map[string]*Module{}}
 	g.wantEmpty = shape == C07EmptyDir || (shape == C07Mixed && g.chance(0.35))
 	g.wantRev = shape == C07MultiRev || (shape == C07Mixed && g.chance(0.15))
+	g.wantClash = shape == C07PrefixClash || (shape == C07Mixed && g.chance(0.08))
 	g.modules(shape)
 	if g.wantRev {
 		g.revisions(shape)
@@ -236,6 +247,9 @@ func GenerateC07(r *rand.Rand, shape int) *C07Set {
 		if g.wantRev {
 			g.op(C07MultiRev)
 		}
+		if g.wantClash {
+			g.op(C07PrefixClash)
+		}
 		if g.chance(0.08) {
 			g.op(C07DevGone)
 		}
@@ -251,7 +265,7 @@ func GenerateC07(r *rand.Rand, shape int) *C07Set {
 	case C07ChainWorst:
 		order = 0
 		g.op(shape)
-	case C07EmptyDir, C07MultiRev:
+	case C07EmptyDir, C07MultiRev, C07PrefixClash:
 		n := 1 + r.Intn(2)
 		if shape == C07MultiRev {
 			n++
@@ -286,6 +300,17 @@ func (g *c07g) modules(shape int) {
 		nm = 1
 	}
 	names := []string{"a", "b", "c", "d"}
+	if g.wantClash {
+		// the modules that the files of module a import under one and the same prefix
+		if shape == C07PrefixClash {
+			nm = 1 + r.Intn(2)
+		}
+		names = append(append([]string{}, names[:nm]...), "alpha", "beta")
+		if g.chance(0.4) {
+			names = append(names, "gamma")
+		}
+		nm = len(names)
+	}
 	for i := 0; i < nm; i++ {
 		m := &Module{Name: names[i], Prefix: "p" + names[i], Namespace: "urn:" + names[i], ImportPrefix: map[*Module]string{}}
 		m.Body = &Node{Kw: "module", Arg: m.Name}
@@ -318,6 +343,12 @@ func (g *c07g) modules(shape int) {
 		if psub == 1 && !first {
 			p = 0.3
 		}
+		if g.wantClash {
+			p = 0.15
+			if m.Name == "a" {
+				p = 1
+			}
+		}
 		if !g.chance(p) {
 			continue
 		}
@@ -337,6 +368,9 @@ func (g *c07g) modules(shape int) {
 		if len(m.Includes) == 2 && g.chance(0.25) {
 			m.Includes[0].Includes = append(m.Includes[0].Includes, m.Includes[1])
 		}
+	}
+	if g.wantClash {
+		g.bindPrefixes()
 	}
 	g.set.Mods = append(g.set.Mods, subs...)
 	g.mods = append([]*Module{}, g.set.Mods...)
@@ -517,6 +551,15 @@ func (g *c07g) bases(shape int) {
 	if g.wantEmpty {
 		g.emptyBase()
 	}
+	for i, t := range g.clashTargets() {
+		// identically named nodes in every one of them, so that one path string exists in each
+		top := t.Body.add("container", "top")
+		g.leaf(top, "own")
+		g.leaf(top.add("container", "in"), "x")
+		if i == 0 {
+			g.leaf(top.add("container", "only"), "y") // only the first one has /top/only
+		}
+	}
 	for _, m := range g.mods {
 		n := 1 + g.r.Intn(2)
 		for i := 0; i < n; i++ {
@@ -678,8 +721,27 @@ func (g *c07g) revOp() {
 			}
 		})
 	}
-	k := g.r.Intn(12)
+	k := g.r.Intn(15)
 	switch {
+	case k == 14 && !sub: // (h) a regular module with a plain import aims at a node that only an older revision has: missing
+		var own *c07sn
+		for _, x := range g.work[c07full(old)].kids {
+			if x.name != "extown" && x.kw == "container" {
+				own = x
+			}
+		}
+		for _, w := range g.mods {
+			if own == nil || g.chance(0.5) {
+				continue
+			}
+			for _, r := range w.Imports {
+				if r == latest && g.pins[w][r] == "" {
+					a := g.newAug(w, latest, own.names(), g.pathArg(w, own, 0), name)
+					g.leaf(a.stmt, g.augName(w))
+					return
+				}
+			}
+		}
 	case k <= 1: // (a) into the tree of another module
 		if c, ok := target(); ok {
 			g.augOn(old, c, name, mode(), g.body(old, false))
@@ -758,6 +820,116 @@ func (g *c07g) revOp() {
 					g.augOn(w, cs[g.r.Intn(len(cs))], name, mode(), g.body(w, false))
 				}
 			}
+		}
+	}
+}
+
+// clashTargets: the distinct modules bound to the shared prefix, the owner's first.
+func (g *c07g) clashTargets() []*Module {
+	var out []*Module
+	seen := map[*Module]bool{}
+	for _, b := range g.clash {
+		if !seen[b.target] {
+			seen[b.target] = true
+			out = append(out, b.target)
+		}
+	}
+	return out
+}
+
+// bindPrefixes: import tables are per file. Module a and its submodules (or two sibling submodules)
+// bind the prefix "t" to different modules among alpha, beta, gamma; a third file sometimes binds it
+// to the same module as the first.
+func (g *c07g) bindPrefixes() {
+	var owner *Module
+	var targets []*Module
+	for _, m := range g.set.Mods {
+		switch m.Name {
+		case "a":
+			owner = m
+		case "alpha", "beta", "gamma":
+			targets = append(targets, m)
+		}
+	}
+	if owner == nil || len(owner.Includes) == 0 || len(targets) < 2 {
+		return
+	}
+	files := []*Module{owner, owner.Includes[0]}
+	if len(owner.Includes) == 2 {
+		switch g.r.Intn(3) {
+		case 0:
+			files = []*Module{owner.Includes[0], owner.Includes[1]} // two sibling submodules
+		case 1:
+			files = append(files, owner.Includes[1])
+		}
+	}
+	for i, f := range files {
+		t := targets[i%len(targets)]
+		if i == 2 && (len(targets) < 3 || g.chance(0.5)) {
+			t = targets[0] // the same module as the first file: both augments meet in one target
+		}
+		f.ImportPrefix[t] = "t"
+		g.clash = append(g.clash, c07bind{f, t})
+	}
+}
+
+// clashOp: every bound file writes an augment with the SAME path string ("/t:top", "/t:top/t:in",
+// "/t:top/t:only"); each one has to land in the module its own file imports under that prefix.
+func (g *c07g) clashOp() {
+	name := C07ShapeNames[C07PrefixClash]
+	if len(g.clash) < 2 {
+		return
+	}
+	node := func(t *Module, steps ...string) *c07sn { return c07resolve(g.work[c07full(t)], steps) }
+	steps := []string{"top"}
+	if g.chance(0.4) {
+		steps = []string{"top", "in"}
+	}
+	k := g.r.Intn(10)
+	if k >= 8 {
+		steps = []string{"top", "only"}
+	}
+	g.seq++
+	same := fmt.Sprintf("same%d", g.seq)
+	var grafted []*c07aug
+	for i, b := range g.clash {
+		b := b
+		n := node(b.target, steps...)
+		if n == nil {
+			// this file's module has no such node: to be reported for this file only
+			arg := ""
+			for _, st := range steps {
+				arg += "/t:" + st
+			}
+			a := g.newAug(b.file, b.target, steps, arg, name)
+			g.leaf(a.stmt, g.augName(b.file))
+			a.info.PrefixClash = true
+			continue
+		}
+		fill := g.body(b.file, k == 6 || k == 7)
+		if (k == 4 || k == 5) && (i < 2 || b.target != g.clash[0].target) {
+			// the same child name into different targets: no collision
+			fill = func(a *Node, t *c07sn) {
+				if t.kid(same) == nil {
+					g.leaf(a, same)
+				}
+				g.leaf(a, g.augName(b.file))
+			}
+		}
+		a := g.augOn(b.file, c07cand{b.target, n}, name, 0, fill)
+		a.info.PrefixClash = true
+		grafted = append(grafted, a)
+	}
+	if (k == 6 || k == 7) && len(grafted) > 0 {
+		// a chain continues on what one of them grafted
+		a := grafted[g.r.Intn(len(grafted))]
+		nx := g.cands(false, func(n *c07sn) bool {
+			return c07augmentable(n) && n.flagged(func(x *c07sn) bool { return x.aug == a.info.ID })
+		})
+		if len(nx) > 0 {
+			w := g.writer(nil)
+			c2 := nx[g.r.Intn(len(nx))]
+			g.augOn(w, c2, name, g.pathMode(w, c2), g.body(w, false))
 		}
 	}
 }
@@ -1546,6 +1718,8 @@ func (g *c07g) op(shape int) {
 		g.revOp()
 	case C07DevGone:
 		g.devOp()
+	case C07PrefixClash:
+		g.clashOp()
 	case C07Collision:
 		if g.chance(0.2) {
 			g.sharedCollision()
